@@ -63,6 +63,7 @@ Apply(h, s, e) ==
             IF e.n = OutLenOf(h) /\ Len(e.key) <= MaxKey(h.alg)
             THEN [st |-> [s EXCEPT ![x] = FreshCtx(h, e.key)], out |-> V(DigestOf(h, c))]
             ELSE [st |-> s, out |-> P]
+       [] e.op = "set_length" -> [st |-> [s EXCEPT ![x].start = e.off], out |-> N]      \* processed-bytes count preset (16 LE bytes), fresh context
        [] e.op = "set_counter" -> [st |-> [s EXCEPT ![x].start = CtrOf(h, e)], out |-> N]
 
 Init == hi \in 1..Len(Rec) /\ l = 1 /\ st = Fresh(Rec[hi]) /\ ok = TRUE /\ res = <<>>
